@@ -511,10 +511,16 @@ def build_mutations(tier, seed, wd):
         secs = set(re.findall(r"^([A-Z.]+),", base, re.M))
         # the mutation may have changed a security's name (a 100-digit name, a NUL inside): a diagnostic that quotes
         # the name as it stands in the mutated file does attribute the problem to that security
-        for line in data.decode("utf-8", "replace").split("\n")[1:400]:
-            cell = line.split(",")[0].strip().strip('"')
-            if cell and len(cell) <= 300:
-                secs.add(cell)
+        dlines = data.decode("utf-8", "replace").split("\n")
+        hdr_cells = [x.strip().strip('"').lower() for x in dlines[0].split(",")] if dlines else []
+        sec_cols = {0} | {k for k, x in enumerate(hdr_cells) if x == "security"}      # the mutation may have moved the security column
+        for line in dlines[1:400]:
+            parts = line.split(",")
+            for k in sec_cols:
+                if k < len(parts):
+                    cell = parts[k].strip().strip('"')
+                    if cell and len(cell) <= 300:
+                        secs.add(cell)
         secs = sorted(secs)
         feat = "mutation:" + kind
         if kind == "big_repeat" and b"Split" in data[:2000]:
